@@ -18,9 +18,9 @@ def drivers(tier):
     common = dict(own='QP', processors=True, bogus_delete=True)
     if tier == 'quick':
         d['deferred-fixpoint'] = (WorldDriver(
-            'deferred-fixpoint', types=('A', 'H'), ids=(1, 2),
+            'deferred-fixpoint', types=('A', 'HD'), ids=(1, 2),
             explicit_ids=(1,), max_autos=1,
-            shapes=((), ('A',), ('H',), ('A', 'H')), **common),
+            shapes=((), ('A',), ('HD',), ('A', 'HD')), **common),
             dict(max_states=400000, time_budget=400))
     else:
         d['deferred-fixpoint'] = (WorldDriver(
@@ -29,9 +29,9 @@ def drivers(tier):
             shapes=((), ('A',), ('H',), ('B', 'H')), **common),
             dict(max_states=1500000, time_budget=3000))
         d['three-entities'] = (WorldDriver(
-            'three-entities', types=('A', 'H'), ids=(1, 2, 3),
+            'three-entities', types=('A', 'HD'), ids=(1, 2, 3),
             explicit_ids=(1,), max_autos=1,
-            shapes=((), ('A',), ('A', 'H')), **common),
+            shapes=((), ('A',), ('A', 'HD')), **common),
             dict(max_states=1500000, time_budget=3000))
     return d
 
@@ -47,6 +47,7 @@ def run(tier, rep):
     ]
     rep.require_hits(process_with_pending=1, delete_twice=1,
                      pending_row_vanished=1, delete_from_inside_frame=1,
+                     delete_from_on_remove=1,
                      bogus_delete_keyerror=0)
     for name, (driver, kw) in drivers(tier).items():
         kernel.explore(driver, rep, part=name, params=driver.params(), **kw)
